@@ -15,11 +15,14 @@ PROP = dict(
         harness='c11',
         design='DESIGN.md §4 C11',
         technique='LOADERS: the last sentence of the property composed with the format loaders for xb/bin/adf/idf/tnd: SauceLoad.fromBytes = '
-                  'fromBytesSplit (full extract) then BinFormats.loadBody (C05 model, read-only); load_composed (for ALL content and ALL '
+                  'fromBytesSplit (full extract) then BinFormats.loadBody (C05 model; since the merge of the C05 work package BinFormats.fromBytes IS '
+                  'this composition: binformats_from_bytes_is_this, the loaders take C11\'s Sauce record as it is); load_composed (for ALL content and ALL '
                   'metadata the loader gets exactly `content` and the carried record), the SAUCE size rule per loader (record_xb/idf '
                   'unconditional, record_adf/bin by induction over the placed cells: set_height(y+1) before every set_char and '
                   'crop_loaded_file overwrite the record heights, record_tnd_partial by a simulation over the Tundra command loop), '
-                  'load_ignores_sauce_bin: at loader defaults the loaded buffer EQUALS the one of the content alone (tnd: except the recorded '
+                  'load_ignores_sauce_bin: at loader defaults (width, ice, and for .bin the font NAMED in the record: fontAtDefault) the loaded buffer '
+                  'EQUALS the one of the content alone in every field, next to it the kept record (keep: the loader model now stores the '
+                  'record\'s texts in the buffer like Buffer::set_sauce does) (tnd: except the recorded '
                   'no-cell site). Buffer::from_bytes itself is pinned by the translator (extract sees the whole `bytes`, `len` changes by '
                   'sauce_header_len only, both loader calls get &bytes[..len]) and tied by a probe: the .asc loader draws every byte of '
                   '{0x1A} u 0x21..=0x7E as one cell, so the cells of the loaded buffer ARE the bytes the loader was handed. '
@@ -57,13 +60,13 @@ PROP = dict(
                  'arms, error cases, file_size, u16 casts); SauceData::extract (every index/slice/subtraction/assert as a '
                  'panic site, all error returns, per-type interpretation); Buffer::from_bytes (argument of extract, length arithmetic, slice, both '
                  'loader calls: pinned by the translator and probed through the .asc loader); Buffer::set_sauce width/ice/font rule; '
-                 'Buffer::from_bytes composed with the xb/bin/adf/idf/tnd loaders of Model/BinFormats.lean (size/ice part of '
-                 'set_sauce(.., true), set_char/set_height/crop_loaded_file placement, Tundra command loop)',
+                 'Buffer::from_bytes composed with the xb/bin/adf/idf/tnd loaders of Model/BinFormats.lean (set_sauce(.., true): size, ice, '
+                 'font slot 0 from a font NAMED in the record, the kept record; set_char/set_height/crop_loaded_file placement, Tundra command '
+                 'loop incl. the wide-SAUCE start buffer of the repaired loader: tndRuleW)',
         not_modelled='chrono (date parser verdict is a parameter supplied by the harness from the implementation; Utc::now is '
                      'an input); creation_time; the TEXT '
                      'format loaders behind from_bytes (ans asc avt pcb, icy: picture equality is checked by the oracle run only; the .asc loader '
-                     'serves as a probe, it is not modelled); in the composed binary-format statements the replacement of font slot 0 by a font '
-                     'NAMED in the record (BitFont::from_sauce_name; dispatch-level theorem set_sauce_defaults only); get_font(0).unwrap() '
+                     'serves as a probe, it is not modelled); get_font(0).unwrap() '
                      '(a buffer without font slot 0); calling SauceString::read twice on the same value',
         assumptions=['NaiveDateTime::parse_from_str only looks at the 8 date bytes (dateOk is a function of them)',
                      'files shorter than 2^63 bytes (usize arithmetic other than subtraction does not overflow)'],
